@@ -7,6 +7,7 @@ package classifier
 // spans); every inserted copyright notice is reported as a Copyright match on its line.
 
 import (
+	"bytes"
 	"fmt"
 	"os"
 	"regexp"
@@ -34,6 +35,9 @@ type c06Case struct {
 	// Used: the classifier is a private one on which Normalize has been called for the transformed text before the
 	// comparison (a classifier with a call history; small corpora only).
 	Used bool `json:"used,omitempty"`
+	// CRLF: both the original and the transformed text are written with CR LF line endings (the ignorable lines and
+	// markers then end in a carriage return like every other line).
+	CRLF bool `json:"crlf,omitempty"`
 }
 
 // Templates the code recognises as notices. "copyright [yyyy] ..." and "copyright (c) [dates of first publication]"
@@ -88,6 +92,7 @@ func c06Gen(t *rapid.T) interface{} {
 		c.Corpus = smallCorpusAround(t, c.X.docs())
 		c.Used = lib.IntN(t, 0, 3, "used") == 0
 	}
+	c.CRLF = lib.IntN(t, 0, 4, "crlf") == 0
 	kinds := []string{"notice", "notice", "date", "marker", "marker", "split", "split", "spelling", "url"}
 	n := lib.IntN(t, 1, 3, "nops")
 	for i := 0; i < n; i++ {
@@ -294,6 +299,13 @@ func c06Check(ci interface{}) lib.Outcome {
 		}
 	}
 	tx := joinLines(ls)
+	if c.CRLF {
+		toCRLF := func(b []byte) []byte {
+			return bytes.Replace(bytes.Replace(b, []byte("\r\n"), []byte("\n"), -1), []byte("\n"), []byte("\r\n"), -1)
+		}
+		x, tx = toCRLF(x), toCRLF(tx)
+		applied["crlf-line-endings"]++
+	}
 	var kinds []string
 	for k := range applied {
 		kinds = append(kinds, k)
